@@ -444,9 +444,9 @@ def apply_step(psd, c, step, dm):
             inner.append(Group.new("innermost"))
     elif step == "O:observe":
         # reading the cached geometry of the (still empty) containers, as a viewer or a test would
-        for g in [psd[-1]] + list(psd[-1].descendants()):
-            if g.is_group():
-                g.bbox, repr(g), g.size
+        # (only the OUTER group: the caches of the groups inside it stay as they are)
+        outer = psd[-1]
+        repr(outer), outer.bbox, outer.size
         psd.bbox
         psd.composite(force=True) if dm != "CMYK" else None
     elif step == "S:into-inner":
